@@ -88,6 +88,18 @@ def run(ctx):
                 ctx.log("%s N=%d thr=%s a=%s: states %d paths %d inv %.2g (%.1fs)" % (tag, cfg["N"], cfg["thr"], cfg["alpha"], nstates, res["paths"], d, time.time() - t))
     finally:
         pool.shutdown()
+    # ---- correspondence of the Coq conditional-SMC model with the real sampler (fixed data order)
+    from . import C01corr
+
+    items, desc = C01corr.build_items(ctx)
+    ok, bad, detail = coq.coq_eval_bool_cases(ctx, "corr", "From PV Require Import Model.CsmcCases.\nOpen Scope nat_scope.", items, shard=12)
+    ctx.extra["coq_corr_cases"] = len(items)
+    if not ok:
+        ctx.broken_tie("C01 correspondence file did not evaluate", detail)
+    else:
+        ctx.obligation("corr_csmc_model_eq_impl_%d_rows" % len(items), not bad)
+        if bad:
+            ctx.broken[-1]["detail"] = {"failing": len(bad), "first": desc[bad[0]]}
     ctx.assumptions += [
         "the enumerating generator visits every outcome of each numpy call with numpy's probability",
         "float round-off of the exact matrices is below 1e-12 on the small-rational inputs used (observed 1e-16)",
